@@ -145,14 +145,24 @@ package tls
 //@   ensures  !exists(k, 0, len(have), have[k] == want) ==> result == nil
 //@   terminates
 
-// selectCipherSuite calls its function-valued parameter `ok`; govc has no model for such
-// calls (the heap and the result are unknown afterwards), so only memory safety of the
-// function's own code is checked (see /verif/notes/negotiate.md).
+// "selectCipherSuite returns the first TLS 1.0-1.2 cipher suite from ids which is also in
+// supportedIDs and passes the ok filter." The function-valued parameter `ok` is assumed to
+// be a pure predicate (uses purefuncs: deterministic, panic-free, no heap effect - listed as
+// an assumption); apply(ok, s) is its value on s. ngAcc(id) = "id is acceptable": it names
+// an implemented suite that passes ok, and the other side lists it. [first]: the result is
+// the suite of the first acceptable entry of ids (the preference rule); [none]: nil iff no
+// entry is acceptable.
+//@ pred ngAcc(id, supportedIDs, ok) = exists(t, 0, len(implementedCipherSuites), implementedCipherSuites[t].id == id && forall(u, 0, t, implementedCipherSuites[u].id != id) && apply(ok, implementedCipherSuites[t])) && exists(k, 0, len(supportedIDs), supportedIDs[k] == id)
 //@ func selectCipherSuite
 //@   requires nonnil(ok)
 //@   uses purefuncs
+//@   loop 1 invariant 0 <= it && forall(j, 0, it, !ngAcc(ids[j], supportedIDs, ok))
+//@   loop 2 invariant 0 <= it && forall(k, 0, it, supportedIDs[k] != id)
 //@   ensures [sound] result != nil ==> apply(ok, result) && exists(i, 0, len(ids), ids[i] == result.id) && exists(k, 0, len(supportedIDs), supportedIDs[k] == result.id)
-//@   modifies all
+//@   ensures [first] result != nil ==> exists(i, 0, len(ids), ngSuite(result, ids[i]) && forall(j, 0, i, !ngAcc(ids[j], supportedIDs, ok)))
+//@   ensures [none] result == nil ==> forall(j, 0, len(ids), !ngAcc(ids[j], supportedIDs, ok))
+//@   modifies nothing
+//@   terminates
 
 // ---------------------------------------------------------------- handshake_client.go: ALPN
 
